@@ -98,3 +98,71 @@ Example C04_example :
   run_history 3 0 [1; 4; 2]%Z [] 1%Z [HAT 0 1%Z; HNEW 0 0%Z 0%Z; HNX 0; HRUN 0 0%Z (-1)%Z; HNX 0; HNX 0; HNX 0; HAT 0 3%Z; HAT 0 (-1)%Z]
   = [4; 0; 0; 1; 3; 0; 1; 1; 4; 2; 2; 1; 4; 2; 2; -1; -1; -1; -1]%Z.
 Proof. vm_compute. reflexivity. Qed.
+
+(* ---- end to end (HistReads.v): the history model that the correspondence runs compare the implementation with
+   answers exactly what the code's read paths through a view's numberSpec deliver against ANY wait oracle:
+   Scan / All / Values stopped after k items, and At ---- *)
+Require Views HistModel ViewReads HistReads.
+Theorem C04_scan_is_model : forall d, HistReads.digits_ok d ->
+  forall (W : nat -> nat -> nat * bool), (forall c i, WaitOK (HistReads.Dn d) i (W c i)) ->
+  forall big k c v, Views.wf v ->
+  (forall q, q < Z.to_nat (HistModel.eff_lo v) + k -> HistReads.Dn d q <> None -> q < big) ->
+  (match HistReads.nspec_of (HistReads.spec_of v) with ViewReads.NLim l => l <= big | _ => True end) ->
+  map HistReads.zpair (ViewReads.view_scan (HistReads.Dn d) W big k c (HistReads.nspec_of (HistReads.spec_of v))
+                         (Z.to_nat (HistModel.eff_lo v)))
+  = HistModel.fwd_list d (HistModel.eff_hi d v) (HistModel.eff_lo v) k.
+Proof. exact HistReads.scan_is_model. Qed.
+Print Assumptions C04_scan_is_model.
+
+Theorem C04_at_is_model : forall d, HistReads.digits_ok d ->
+  forall (W : nat -> nat -> nat * bool), (forall c i, WaitOK (HistReads.Dn d) i (W c i)) ->
+  forall c v p, Views.wf v ->
+  option_map Z.of_nat (ViewReads.view_at (HistReads.Dn d) W c (HistReads.nspec_of (HistReads.spec_of v)) p)
+  = (if HistModel.below (Z.of_nat p) (HistModel.eff_hi d v) then HistModel.digit_at d (Z.of_nat p) else None).
+Proof. exact HistReads.at_is_model. Qed.
+Print Assumptions C04_at_is_model.
+
+(* non-vacuity: an oracle that has published everything satisfies the contract, and the view [2, 5) of 1.41421 lists 1 4 2 *)
+Definition C04_ex_d := HistModel.mkD [1; 4; 1; 4; 2; 1]%Z [].
+Definition C04_ex_W (c i : nat) : nat * bool := (6, Nat.ltb i 6).
+Example C04_end_to_end_example :
+  (forall c i, WaitOK (HistReads.Dn C04_ex_d) i (C04_ex_W c i)) /\
+  map HistReads.zpair (ViewReads.view_scan (HistReads.Dn C04_ex_d) C04_ex_W 1000 10 0 (ViewReads.NLim 5) 2)
+  = [(2, 1); (3, 4); (4, 2)]%Z.
+Proof.
+  split; [|vm_compute; reflexivity].
+  intros c i. unfold C04_ex_W. cbn [WaitOK]. split; [|split; [reflexivity|]].
+  - intros j Hj. do 6 (destruct j as [|j]; [vm_compute; discriminate|]). lia.
+  - intros _. vm_compute. reflexivity.
+Qed.
+
+(* ---- the v1/v2 pull-iterator stacks as the exported methods build them (LayerC3.v), for every wait oracle and
+   every history of other activity between pulls (the call numbers cs, c0, c1 are arbitrary):
+   FullIterator / v2 Iterator of a Number, and of a Number limited by WithSignificant / WithEnd ---- *)
+Require LayerC3.
+Theorem C04_full_iterator_of_number : forall (D : nat -> option nat), (forall i, D i = None -> D (S i) = None) ->
+  forall (W : nat -> nat -> nat * bool), (forall c i, WaitOK D i (W c i)) ->
+  forall cs c0 c1 start,
+  LayerC3.full_pulls LayerC.it (LayerC.it_next D W) cs (LayerC2.full_new LayerC.it (LayerC.it_next D W) LayerC.i_idx c1 (LayerC.it_new W c0 start))
+  = LayerC3.expect_pairs D (length cs) start.
+Proof. exact LayerC3.full_over_memo. Qed.
+Print Assumptions C04_full_iterator_of_number.
+
+Theorem C04_full_iterator_of_limited_number : forall (D : nat -> option nat), (forall i, D i = None -> D (S i) = None) ->
+  forall (W : nat -> nat -> nat * bool), (forall c i, WaitOK D i (W c i)) ->
+  forall cs c0 c1 start limit,
+  let idx := Nat.min start limit in
+  LayerC3.full_pulls (nat * LayerC.it) (LayerC2.lim_next LayerC.it (LayerC.it_next D W) limit) cs
+    (LayerC2.full_new (nat * LayerC.it) (LayerC2.lim_next LayerC.it (LayerC.it_next D W) limit) fst c1 (idx, LayerC.it_new W c0 idx))
+  = LayerC3.expect_pairs (LayerC3.Elim D limit) (length cs) idx.
+Proof. exact LayerC3.full_over_limit_over_memo. Qed.
+Print Assumptions C04_full_iterator_of_limited_number.
+
+(* v1 Iterator() / IteratorAt(start) of a limited Number: any number of pulls *)
+Theorem C04_limited_iterator_pulls : forall (D : nat -> option nat), (forall i, D i = None -> D (S i) = None) ->
+  forall (W : nat -> nat -> nat * bool), (forall c i, WaitOK D i (W c i)) ->
+  forall cs c0 start limit,
+  let idx := Nat.min start limit in
+  LayerC3.lim_pulls D W limit cs (idx, LayerC.it_new W c0 idx) = LayerC3.expectE (LayerC3.Elim D limit) (length cs) idx.
+Proof. exact LayerC3.limited_iterator_pulls. Qed.
+Print Assumptions C04_limited_iterator_pulls.
